@@ -62,7 +62,7 @@ func stickyEntries(p *Prog) []stickyEntry {
 			}
 		case name == "filter" && fn.Signature.Params().Len() == 1 && isFrameType(fn.Signature.Params().At(0).Type()):
 			out = append(out, stickyEntry{fn, 1})
-		case name == "execute" && fn.Signature.Params().Len() == 2 && isFrameType(fn.Signature.Params().At(0).Type()):
+		case isExecuteSig(fn.Signature) && fn.Signature.Recv() != nil && fn.Signature.Params().Len() == 2 && isFrameType(fn.Signature.Params().At(0).Type()):
 			out = append(out, stickyEntry{fn, 1})
 		}
 	}
